@@ -244,3 +244,16 @@ def register(reg):
     @reg.intrinsic("logging.getLogger")
     def get_logger(it, st, args, kwargs, node):
         return VVal(z3.Const("logger", ValS))
+
+    # logging calls have no effect the properties talk about (DESIGN 2.2: payloads dropped)
+    def log_noop(it, st, recv, args, kwargs, node):
+        return NONE
+
+    def log_enabled(it, st, recv, args, kwargs, node):
+        st.counter += 1
+        return VBool(z3.Bool(f"log_enabled!{st.counter}"))
+
+    reg.val_methods = dict(getattr(reg, "val_methods", {}))
+    for n in ("debug", "info", "warning", "error", "exception", "log"):
+        reg.val_methods[n] = log_noop
+    reg.val_methods["isEnabledFor"] = log_enabled
